@@ -80,9 +80,20 @@ def canonical_table(df) -> bool:
             continue
         if None in ks or [int(k) for k in ks] != list(range(len(ks))) or any(str(int(k)) != k for k in ks):
             return False
-        if len(ks) == 1 and "source" not in base:
-            return False  # a lone name_0 is only produced for source-like names (name otherwise)
     return True
+
+
+def normalized_columns(cols):
+    """Column labels modulo the two documented spellings of a size-1 parameter (``name`` and a lone ``name_0``)."""
+    cols = list(cols)
+    out = []
+    for c in cols:
+        m = _CANON.match(c)
+        if m and m.group(2) == "0" and f"{m.group(1)}_1" not in cols:
+            out.append(m.group(1))
+        else:
+            out.append(c)
+    return out
 
 
 def install():
@@ -133,15 +144,15 @@ def install():
         s = ipref.snap(result)
         probs = ipref.wellformed_problems(s)
         if not probs and s.ids != list(df.index):
-            probs = [("ids-changed", f"{list(df.index)[:6]!r} -> {s.ids[:6]!r}", {})]
+            probs = [("ids-changed", f"{ipref._r(list(df.index))} -> {ipref._r(s.ids)}", {})]
         if not probs and canonical_table(df) and len(df) > 0:
             _count("post_from_dataframe_reverse")
             try:
                 back = o_to_df(result)
                 if list(back.index) != list(df.index):
-                    probs = [("ids-changed", f"table->container->table: {list(df.index)[:6]!r} -> {list(back.index)[:6]!r}", {})]
-                elif list(back.columns) != list(df.columns):
-                    probs = [("names-changed", f"table->container->table: columns {list(df.columns)[:8]!r} -> {list(back.columns)[:8]!r}", {})]
+                    probs = [("ids-changed", f"table->container->table: {ipref._r(list(df.index))} -> {ipref._r(list(back.index))}", {})]
+                elif normalized_columns(back.columns) != normalized_columns(df.columns):
+                    probs = [("names-changed", f"table->container->table: columns {ipref._r(list(df.columns))} -> {ipref._r(list(back.columns))}", {})]
                 else:
                     a = np.asarray(df.values, dtype=float)
                     b = np.asarray(back.values, dtype=float)
@@ -180,7 +191,7 @@ def install():
         s = ipref.snap(result)
         probs = ipref.wellformed_problems(s)
         if not probs and s.ids != list(indices):
-            probs = [("ids-changed", f"{list(indices)[:6]!r} -> {s.ids[:6]!r}", {})]
+            probs = [("ids-changed", f"{ipref._r(list(indices))} -> {ipref._r(s.ids)}", {})]
         if not probs and s.ids and set(s.shapes) != set(dict_pytorch):
             probs = [("names-changed", f"{sorted(dict_pytorch)} -> {sorted(s.shapes)}", {})]
         if not probs and s.ids:
@@ -196,7 +207,7 @@ def install():
                         probs = [("values-changed", f"tensors->container->tensors changed {p!r}", {})]
                         break
                 if not probs and list(ids2) != list(indices):
-                    probs = [("ids-changed", f"tensors->container->tensors: {list(indices)[:6]!r} -> {list(ids2)[:6]!r}", {})]
+                    probs = [("ids-changed", f"tensors->container->tensors: {ipref._r(list(indices))} -> {ipref._r(list(ids2))}", {})]
             except Exception as e:
                 probs = [_raised(e)]
         return _verdict("pytorch", probs)
@@ -246,10 +257,10 @@ def install():
         _count("post_add")
         reason = ipref.addition_verdict(OLD.before, index, individual_parameters)
         if reason is not None:
-            return _verdict("add", [("accepted-" + reason, f"add({index!r}, {str(individual_parameters)[:120]}) was accepted", {})])
+            return _verdict("add", [("accepted-" + reason, f"add({ipref._r(index)}, {str(individual_parameters)[:120]}) was accepted", {})])
         probs = []
         if self._indices != OLD.before.ids + [index] or list(self._individual_parameters)[-1:] != [index]:
-            probs = [("not-appended-in-order", f"ids {OLD.before.ids[-3:]!r} + {index!r} -> {self._indices[-4:]!r}", {})]
+            probs = [("not-appended-in-order", f"ids {ipref._r(OLD.before.ids[-3:])} + {ipref._r(index)} -> {ipref._r(self._indices[-4:])}", {})]
         else:
             want = ipref.model_from_entries([(index, individual_parameters)])
             got = ipref.Snap([index], {index: self._individual_parameters[index]}, {p: self._parameters_shape.get(p) for p in want.shapes})
